@@ -462,6 +462,11 @@ def lang_workload(ctx, n_docs, n_seq, seq_len, hostile=True, mutants=True):
         # wrong entry point
         if rng.random() < 0.1:
             yield rng.choice(["document", "value", "type"]), text, {}, "wrong-entry", False, False
+        # the same kind of derivation with one variable in a const position (labelled invalid)
+        if start in ("executable", "typesystem") and rng.random() < 0.3:
+            ctoks, cfeats = docgen.gen_tokens(rng, start, fragment_variables=fragvars, const_violation=True)
+            if "const-violation" in cfeats:
+                yield entry, lexgen.render(rng, ctoks), flags, "variable-in-const-position", False, False
         if not mutants:
             continue
         for op, mt in mutate.token_mutants(rng, toks, 4):
